@@ -338,7 +338,7 @@ class EvalFunc:
         self.code_list = code_list
         self.code_str = code_str
         self.trigger = []
-        self.trigger_service = set()
+        self.trigger_service = {}
         # time of the last accepted trigger: hold_off is per function, shared by all its trigger tasks
         self.hold_off_last_time = None
         self.has_closure = False
@@ -531,15 +531,16 @@ class EvalFunc:
                     domain, name = srv_name.split(".", 1)
                     if name in (SERVICE_RELOAD, SERVICE_JUPYTER_KERNEL_START):
                         raise SyntaxError(f"{exc_mesg}: @service conflicts with builtin service")
+                    handler = pyscript_service_factory(func_name, self)
                     Function.service_register(
                         trig_ctx_name,
                         domain,
                         name,
-                        pyscript_service_factory(func_name, self),
+                        handler,
                         dec_kwargs.get("supports_response", SupportsResponse.NONE),
                     )
                     async_set_service_schema(Function.hass, domain, name, service_desc)
-                    self.trigger_service.add(srv_name)
+                    self.trigger_service.setdefault(srv_name, []).append(handler)
                 continue
 
             if dec_name == "webhook_trigger" and "methods" in dec_kwargs:
@@ -604,10 +605,11 @@ class EvalFunc:
         for trigger in self.trigger:
             trigger.stop()
         self.trigger = []
-        for srv_name in self.trigger_service:
+        for srv_name, handlers in self.trigger_service.items():
             domain, name = srv_name.split(".", 1)
-            Function.service_remove(self.global_ctx_name, domain, name)
-        self.trigger_service = set()
+            for handler in handlers:
+                Function.service_remove(self.global_ctx_name, domain, name, handler)
+        self.trigger_service = {}
 
     async def eval_decorators(self, ast_ctx):
         """Evaluate the function decorators arguments."""
